@@ -287,9 +287,9 @@ ExpressionEvaluator::evaluate_typed_expression_internal(const ASTNode *node) {
     case ASTNodeType::AST_FUNC_CALL: {
         // 関数呼び出しの場合、型推論を使って正確な型を決定
         try {
-            // まず関数の戻り値型を推論
-            InferredType function_return_type =
-                type_engine_.infer_function_return_type(node->name, {});
+            // まず関数の戻り値型を推論（module.function() 形式の外部関数
+            // 呼び出しはモジュール名も見て決まるので、ノード全体から推論した型）
+            InferredType function_return_type = inferred_type;
 
             // array_get_double は特別扱い: ビット表現からdoubleに変換
             if (node->name == "array_get_double") {
